@@ -73,3 +73,20 @@ func TestReplayC01(t *testing.T) { replayLab(t, "C01") }
 func TestReplayC04(t *testing.T) { replayLab(t, "C04") }
 func TestReplayC05(t *testing.T) { replayLab(t, "C05") }
 func TestReplayC11(t *testing.T) { replayLab(t, "C11") }
+
+// loadReplay reads VERIF_REPLAY_FILE into doc; false (and Skip) if unset.
+func loadReplay(t *testing.T, doc any) bool {
+	f := os.Getenv("VERIF_REPLAY_FILE")
+	if f == "" {
+		t.Skip("VERIF_REPLAY_FILE not set")
+		return false
+	}
+	raw, err := os.ReadFile(f)
+	if err != nil {
+		t.Fatal(err)
+	}
+	if err := json.Unmarshal(raw, doc); err != nil {
+		t.Fatal(err)
+	}
+	return true
+}
